@@ -6,6 +6,7 @@ package main
 import (
 	"fmt"
 	"math"
+	"os"
 	"reflect"
 	"sort"
 	"strings"
@@ -307,6 +308,9 @@ func runMarch(d desc) marchOutcome {
 	pm, pp := marchMesh(func() modeling.Mesh { return marchPar(parC, d.MAttr, d.Cutoff) })
 	o.seqPanic, o.parPanic = sp, pp
 	o.marchEq = (sp == "") == (pp == "")
+	if os.Getenv("C10_DEBUG") != "" {
+		fmt.Fprintf(os.Stderr, "march: sequential panic %q, parallel panic %q\n", sp, pp)
+	}
 	if sp == "" && pp == "" {
 		sk, pk := triKeys(sm, attrOf(d.MAttr), d.cpu()), triKeys(pm, attrOf(d.MAttr), d.cpu())
 		o.tris = len(sk)
